@@ -1,20 +1,21 @@
 #!/bin/bash
 # Development tool: apply every seeded change in turn, run the quick check of its property, revert,
 # and write seeded/DETECTION.tsv (seed, property, exit, summary line, failure codes of the replays).
-cd /verif
+cd $(dirname $0)/..
+REPO=${VERIF_REPO:-/repo}
 out=seeded/DETECTION.tsv
 : > $out
 for d in seeded/C*/; do
   s=$(basename $d); p=${s%-*}
-  git -C /repo apply $PWD/$d/patch.diff || { echo -e "$s\t$p\tPATCH-DOES-NOT-APPLY" >> $out; continue; }
+  git -C $REPO apply $PWD/$d/patch.diff || { echo -e "$s\t$p\tPATCH-DOES-NOT-APPLY" >> $out; continue; }
   rm -rf replays/$p
   res=$(timeout 900 ./check $p --tier quick 2>&1); rc=$?
-  git -C /repo checkout -- .
+  git -C $REPO checkout -- .
   line=$(echo "$res" | tail -1)
   codes=$(python3 - $p <<'PY'
 import json,glob,sys,collections
 c=collections.Counter()
-for f in glob.glob('/verif/replays/%s/*.json' % sys.argv[1]):
+for f in glob.glob('replays/%s/*.json' % sys.argv[1]):
     try:
         r=json.load(open(f))
     except Exception: continue
@@ -27,4 +28,4 @@ PY
   nofail=$(echo "$res" | grep -c "no-failing-input-found")
   echo -e "$s\t$p\trc=$rc\t$line\t$codes\tno-failing-input-found=$nofail" >> $out
 done
-git -C /repo status --short
+git -C $REPO status --short
